@@ -770,6 +770,16 @@ async fn main() -> Result<()> {
         }
     }
 
+    // A run in which a planned operation failed or a post-transfer verification
+    // failed is not a success: exit status 0 means every selected file is in place
+    if !stats.errors.is_empty() || stats.verification_failures > 0 {
+        anyhow::bail!(
+            "Sync finished with {} failed operation(s) and {} verification failure(s)",
+            stats.errors.len(),
+            stats.verification_failures
+        );
+    }
+
     Ok(())
 }
 
